@@ -97,7 +97,15 @@ impl<'tcx> Ex<'tcx> {
             }
             ty::Tuple(ts) => {
                 let v: Vec<String> = ts.iter().map(|t| esc(&self.ty(t))).collect();
-                format!("{{\"k\":\"tuple\",\"of\":[{}]}}", v.join(","))
+                // field offsets of monomorphic tuples (constants of tuple type are exported as raw bytes)
+                let mut lay = String::new();
+                if !ty.has_param() && !ty.has_infer() && !ty.has_aliases() {
+                    if let Ok(l) = tcx.layout_of(TypingEnv::fully_monomorphized().as_query_input(ty)) {
+                        let offs: Vec<String> = (0..ts.len()).map(|i| l.fields.offset(i).bytes().to_string()).collect();
+                        lay = format!(",\"offs\":[{}],\"size\":{}", offs.join(","), l.size.bytes());
+                    }
+                }
+                format!("{{\"k\":\"tuple\",\"of\":[{}]{}}}", v.join(","), lay)
             }
             ty::Adt(def, args) => {
                 let targs: Vec<String> = args.types().map(|t| esc(&self.ty(t))).collect();
